@@ -6,6 +6,8 @@ named checks are run against the worktree (VERIF_REPO). Results are appended to
 tools/mutation_results.jsonl. Worktrees are removed afterwards."""
 import json, os, subprocess, sys, shutil, time, tempfile
 from concurrent.futures import ThreadPoolExecutor
+import threading
+SUITE_LOCK = threading.Lock()  # the repository's tests use fixed directories under /tmp
 VERIF = os.path.dirname(os.path.dirname(os.path.abspath(__file__)))
 ENV = dict(os.environ, GOFLAGS="-mod=mod", GOPROXY="off", GOSUMDB="off", GOTOOLCHAIN="local")
 
@@ -30,7 +32,8 @@ def one(m, budget):
         r = sh("go build ./... ", cwd=wt)
         if r.returncode: res["error"] = "compile: " + r.stderr[-500:]; return res
         if m.get("suite", True):
-            r = sh("go test -vet=off -count=1 ./... 2>&1 | grep -v '^ok\\|no test files'", cwd=wt)
+            with SUITE_LOCK:
+                r = sh("go test -vet=off -count=1 -p 1 ./... 2>&1 | grep -v '^ok\\|no test files'", cwd=wt)
             res["suite_passes"] = (r.stdout.strip() == "")
             if not res["suite_passes"]: res["suite_output"] = r.stdout[-600:]
         res["checks"] = {}
